@@ -5,9 +5,11 @@
   only; the key id test, the key check, the block alignment test, the declared-length guard and the msg_id parity
   test need nothing else. The driver answers operations on packets of many megabytes with this rule where it
   decides and with the full model otherwise; for every described packet of at most 2^20 bytes it computes BOTH and
-  reports a difference (`Driver.C04.bigOpen`), so the rule is tied to the model on every run. (That the rule equals the
-  model for every size needs "the first two decrypted blocks depend on the first two cipher blocks only" of the
-  executable IGE — true by construction of `IgeExec.decLoop`, not yet stated as a theorem.) Core-only.
+  reports a difference (`Driver.C04.bigOpen`), so the rule is tied to the model on every run. "The first two decrypted
+  blocks depend on the first two cipher blocks only" of the executable IGE is a theorem now
+  (`HeadIge.lean`: `IgeExec.igeDec_head32`, for every length of the rest); the step from there to "the rule equals
+  `openClient` wherever it answers" (unfolding the reader pops of `openClientG` / `openInner` over `take` / `drop`) is
+  still open. Core-only.
 -/
 import Mtv.Envelope.Model
 namespace Mtv.Envelope
